@@ -40,6 +40,9 @@ KT_all == {"s", "min", "h", "ms"}
 KT_two == {"min", "ms"}
 Calls_all == { [k |-> kk, z |-> {}] : kk \in AllCallKinds } \cup
              { [k |-> kk, z |-> zz] : kk \in {"good", "bad", "bad2"}, zz \in {{"A"}, {"B"}, SubstSet} }
+\* (histories of length 3 are taken over a smaller set of kinds: 11^3 per system and registry)
+Calls_t == { [k |-> kk, z |-> {}] : kk \in {"good", "good2", "bad", "bad2"} } \cup
+           { [k |-> "bad", z |-> {"A"}], [k |-> "bad2", z |-> SubstSet], [k |-> "good", z |-> {"B"}] }
 Plans_q == {0, 2, 5}
 Plans_t == {0, 2, 5, 6}
 Calls_none == {}
